@@ -133,12 +133,18 @@ func (o *Observed) canon(n *Node) string {
 	var b strings.Builder
 	fmt.Fprintf(&b, "panic=%v nil=%v\n", o.Panic != "", o.Nil)
 	for _, k := range o.Keys {
-		is := append([]ObsIssue(nil), o.ByKey[k]...)
-		fmt.Fprintf(&b, "%q:", k)
-		for _, i := range is {
-			fmt.Fprintf(&b, " {%s|%s|%s|%v|%s}", i.Path, i.Code, i.Dtype, i.Params, i.Message)
+		var kb strings.Builder
+		for _, i := range o.ByKey[k] {
+			// the property (C09) speaks of issues from required checks, coercion and tests; an issue that
+			// wraps a PostTransform's own error (or is the ZogIssue a callback returned) is not one of them
+			if (i.Code == "" && i.HasErr) || i.Code == "user_code" {
+				continue
+			}
+			fmt.Fprintf(&kb, " {%s|%s|%s|%v|%s}", i.Path, i.Code, i.Dtype, i.Params, i.Message)
 		}
-		b.WriteString("\n")
+		if kb.Len() > 0 {
+			fmt.Fprintf(&b, "%q:%s\n", k, kb.String())
+		}
 	}
 	if o.Nil {
 		b.WriteString(CoqDval(o.Dest, n))
@@ -206,7 +212,9 @@ func NewCase(g *Gen, id int, forceValidate *bool) *Case {
 				continue
 			}
 			vs := log.visits[s]
-			if validate || !c.Wrapped {
+			if validate || !c.Wrapped || len(vs) == 0 {
+				// no recording provider saw this struct (nil or non-map data, or an unwrapped input):
+				// the order its fields were visited in is not known
 				known = false
 				continue
 			}
@@ -337,7 +345,11 @@ func (s *Stats) Add(c *Case) {
 	var codes []string
 	for _, k := range c.Obs.Keys {
 		for _, i := range c.Obs.ByKey[k] {
-			s.Codes[i.Code]++
+			code := i.Code
+			if strings.HasPrefix(code, "code") {
+				code = "(IssueCode option)"
+			}
+			s.Codes[code]++
 			codes = append(codes, i.Code)
 		}
 	}
